@@ -7,7 +7,7 @@
    once (C18_iter: strictly increasing enumeration of exactly the members). *)
 From Coq Require Import List ZArith Bool Arith Sorted Lia.
 From PV Require Import Model.Term Model.Subst Model.Unify Model.FD Model.State Model.Engine Proofs.FDProofs Proofs.FDPropProofs
-  Proofs.UnifyProofs Proofs.DiseqProofs Proofs.MonoProofs Proofs.DenProofs Proofs.FDDen Proofs.FDComp.
+  Proofs.UnifyProofs Proofs.DiseqProofs Proofs.MonoProofs Proofs.DenProofs Proofs.FDDen Proofs.FDComp Proofs.Acyc Proofs.FDEq.
 Import ListNotations.
 Local Open Scope Z_scope.
 
@@ -78,6 +78,12 @@ Theorem C17_post_domain_complete : forall x d st, WFD st -> wf' d ->
 Proof. exact post_domain_C. Qed.
 Theorem C17_rerun_complete : forall f st, WFD st -> sresCP QT st (run_constraints f st).
 Proof. exact run_constraints_C. Qed.
+(* == on states with domains loses no solution either: every solution of the state that makes both sides
+   equal solves the result - the domain of each newly bound variable is intersected into the term it was
+   bound to, never lost, never applied twice - and failure means there is none *)
+Theorem C17_eq_complete : forall st u v, acyc (st_smap st) -> WFD st ->
+  sresCP (fun th => app th u = app th v) st (state_unify st u v).
+Proof. exact state_unify_C. Qed.
 (* readings of the two outcomes *)
 Theorem C17_success_keeps : forall c st st' th, WFD st -> post_constraint c st = SOk st' ->
   MstG th st -> choldG th c -> MstG th st'.
@@ -131,3 +137,4 @@ Print Assumptions C17_rerun_complete.
 Print Assumptions C17_success_keeps.
 Print Assumptions C17_failure_means_none.
 Print Assumptions C17_with_C16.
+Print Assumptions C17_eq_complete.
